@@ -91,28 +91,36 @@ def check_enum(spec):
     if missing:
         bad.append(("enumerate:missing", "nested estimators never yielded", [(0,) + p for p in missing],
                     "every nested estimator"))
-    # pipeline2str: one indented line per yielded model
-    try:
-        text = pipeline2str(pipe)
-    except Exception as e:
-        return bad + [("pipeline2str:raises:%s" % type(e).__name__, "pipeline2str raises", str(e)[:80], "text")]
-    lines = text.split("\n")
-    if len(lines) != len(got):
-        bad.append(("pipeline2str:line-count", "number of lines differs from the number of yielded models",
-                    len(lines), len(got)))
-    else:
+    # pipeline2str: one indented line per yielded model (default indent, then other values of the `indent` argument)
+    for k in (None, 1, 2, 5):
+        try:
+            text = pipeline2str(pipe) if k is None else pipeline2str(pipe, indent=k)
+        except Exception as e:
+            return bad + [("pipeline2str:raises:%s" % type(e).__name__, "pipeline2str raises", str(e)[:80], "text")]
+        width = 3 if k is None else k
+        lines = text.split("\n")
+        if len(lines) != len(got):
+            bad.append(("pipeline2str:line-count", "number of lines differs from the number of yielded models",
+                        len(lines), len(got)))
+            break
+        stop = False
         for line, (coor, model, vs) in zip(lines, got):
             ind = len(line) - len(line.lstrip(" "))
             name = type(model).__name__
             body = line[ind:]
             exp_body = name if vs is None else "%s(%s)" % (name, ",".join(map(str, vs)))
-            if ind != 3 * (len(coor) - 1):
-                bad.append(("pipeline2str:indent", "indentation is not 3*(depth-1)", {"line": line, "coor": coor},
-                            3 * (len(coor) - 1)))
+            if ind != width * (len(coor) - 1):
+                bad.append(("pipeline2str:indent" if k is None else "pipeline2str:indent:non-default-indent",
+                            "indentation is not indent*(depth-1) (indent=%d)" % width, {"line": line, "coor": coor},
+                            width * (len(coor) - 1)))
+                stop = True
                 break
             if body != exp_body:
                 bad.append(("pipeline2str:line-text", "line does not name the yielded model", line, exp_body))
+                stop = True
                 break
+        if stop:
+            break
     return bad
 
 
